@@ -9,6 +9,7 @@ as data, by the model (vm_compute) and the Spec; graph relations and field conte
 Worker mode:  python -m harness.c15 --worker   (JSON cases on stdin, JSON outcomes on stdout)."""
 from __future__ import annotations
 
+import gc
 import itertools
 import json
 import subprocess
@@ -247,6 +248,26 @@ KConsultant.affiliated_with = KAff(KConsultant, "affiliated_with")
 KChair.chairs = KChairs(KChair, "chairs")
 
 
+# family S: the university model with instances of SUBCLASSES of the classes that declare the descriptors.  The class diagram keys a
+# field by (class, dataclass field): for a Student the inherited Person.member_of is a second key (Student, member_of); directly
+# asserted relations use the declaring key, inferred ones the key of the instance's class.  The model runs on these keys (as the code
+# does), the Spec on the facts (object, public field, object).
+def _subclasses_of_the_university_model():
+    from test.dataset.university_ontology_like_classes import Company, Person
+
+    @dataclass(eq=False)
+    class Student(Person):
+        year: int = 1
+
+    @dataclass(eq=False)
+    class Startup(Company):
+        founded: int = 2000
+
+    Student.__module__ = Startup.__module__ = __name__
+    globals()["Student"], globals()["Startup"] = Student, Startup
+    return Student, Startup
+
+
 @dataclass
 class Family:
     key: str
@@ -265,6 +286,7 @@ class Family:
     rtsups: dict = field(default_factory=dict)
     invs: dict = field(default_factory=dict)
     trans: list = field(default_factory=list)
+    canon: list = field(default_factory=list)       # key -> the key of the class that declares the descriptor (the public field)
 
     def analyse(self):
         self.flds, self.kind, self.rng, self.dsc, self.dclasses = [], [], [], [], []
@@ -289,7 +311,7 @@ class Family:
                 t = hints[name]
                 args = typing.get_args(t)
                 tc = args[0] if args else t
-                r = [j for j, K in enumerate(self.classes) if K is tc]
+                r = [j for j, K in enumerate(self.classes) if isinstance(tc, type) and issubclass(K, tc)]
                 r += self.extra_range.get((ci, name), [])
                 self.rng.append(r)
                 D = type(d)
@@ -304,15 +326,23 @@ class Family:
 
         self.sups, self.rtsups, self.invs = {}, {}, {}
         rtclass = self.rt_class()
+        self.canon = []
+        for f, (ci, name, d) in enumerate(self.flds):
+            decl = [g for g, (c2, n2, _) in enumerate(self.flds) if n2 == name and self.classes[c2] is d.domain]
+            self.canon.append(decl[0] if decl else f)
         for f, (ci, name, d) in enumerate(self.flds):
             D = type(d)
-            s = strict_supers(ci, D)
-            if s:
-                self.sups[(ci, f)] = s
-            if ci in rtclass:
-                s = strict_supers(rtclass[ci], D)
+            # a relation under key f can have as source an instance of the key's class or of a subclass of it
+            for cj, Cj in enumerate(self.classes):
+                if not issubclass(Cj, self.classes[ci]):
+                    continue
+                s = strict_supers(cj, D)
                 if s:
-                    self.rtsups[(ci, f)] = s
+                    self.sups[(cj, f)] = s
+                if cj in rtclass:
+                    s = strict_supers(rtclass[cj], D)
+                    if s:
+                        self.rtsups[(cj, f)] = s
             if issubclass(D, HasInverseProperty):
                 I = D.get_inverse()
                 for cj in range(len(self.classes)):
@@ -325,11 +355,30 @@ class Family:
                             self.invs[(cj, f)] = (True, viart[0])
         return self
 
+    def has_subclass_keys(self) -> bool:
+        return any(c != f for f, c in enumerate(self.canon))
+
+    def canonical(self) -> "Family":
+        """the same schema on FACTS: every key replaced by the public field it stands for (the Spec's view)"""
+        fam = Family(self.key + "c", self.classes, self.role_taker)
+        fam.flds, fam.kind, fam.rng, fam.dsc, fam.dclasses, fam.trans = self.flds, self.kind, self.rng, self.dsc, self.dclasses, self.trans
+        fam.canon = list(self.canon)
+        c = self.canon
+        fam.sups = {}
+        for (cj, f), v in self.sups.items():
+            fam.sups.setdefault((cj, c[f]), [])
+            fam.sups[(cj, c[f])] = sorted(set(fam.sups[(cj, c[f])]) | {c[g] for g in v if c[g] != c[f]})
+        fam.rtsups = {}
+        for (cj, f), v in self.rtsups.items():
+            fam.rtsups[(cj, c[f])] = sorted(set(fam.rtsups.get((cj, c[f]), [])) | {c[g] for g in v})
+        fam.invs = {(cj, c[f]): (flag, c[g]) for (cj, f), (flag, g) in self.invs.items()}
+        return fam
+
     def rt_class(self) -> Dict[int, int]:
         out = {}
         for ci, attr in self.role_taker.items():
             t = typing.get_type_hints(self.classes[ci])[attr]
-            out[ci] = [j for j, K in enumerate(self.classes) if K is t][0]
+            out[ci] = [j for j, K in enumerate(self.classes) if K is t][0]     # the DECLARED class of the role taker
         return out
 
     def has_inverse(self, f):
@@ -366,6 +415,9 @@ def families() -> Dict[str, Family]:
         _FAMS["N"] = Family("N", [Node, Boss, Twin], {1: "node"}, max_counts=(4, 2, 2),
                             extra_range={(0, "top"): [2], (0, "a"): [2], (0, "b"): [2], (0, "ab"): [2]}).analyse()
         _FAMS["O"] = Family("O", [Org, Dept], {}, max_counts=(4, 2)).analyse()
+        Student, Startup = _subclasses_of_the_university_model()
+        _FAMS["S"] = Family("S", [Company, Person, CEO, Student, Startup], {2: "person"}, extra_range={(0, "members"): [2], (4, "members"): [2]},
+                            max_counts=(2, 2, 2, 2, 2)).analyse()
         _FAMS["K"] = Family("K", [KOrg, KEmployee, KConsultant, KChair], {3: "consultant"}, max_counts=(3, 2, 2, 2)).analyse()
     return _FAMS
 
@@ -407,7 +459,7 @@ def admissible(fam: Family, pop, edges) -> bool:
     seen = {}
     for (s, f, t) in C:
         if fam.kind[f] == "scalar":
-            if seen.setdefault((s, f), t) != t:
+            if seen.setdefault((s, fam.canon[f]), t) != t:
                 return False
         if fam.has_inverse(f):
             iv = fam.invs.get((pop[t][0], f))
@@ -482,9 +534,14 @@ def run_impl(descr) -> Dict[str, Any]:
     exc = None
     try:
         for how, s, f, ts in descr["ops"]:
-            name = fam.flds[f][1]
+            name = fam.flds[f][1] if f >= 0 else None
             o = objs[s]
             vals = [objs[t] for t in ts]
+            if how == "drop":                  # the object is released and collected; its node stays in the graph until the next sweep
+                del o
+                objs[s] = None
+                gc.collect()
+                continue
             if how == "set":
                 setattr(o, name, vals[0])
             elif how == "append":
@@ -520,7 +577,7 @@ def run_impl(descr) -> Dict[str, Any]:
                 raise ValueError(how)
     except Exception as e:  # noqa
         exc = f"{type(e).__name__}: {str(e)[:160]}"
-    ident = {id(o): i for i, o in enumerate(objs)}
+    ident = {id(o): i for i, o in enumerate(objs) if o is not None}
     fid = {(fam.classes[ci], name): f for f, (ci, name, _) in enumerate(fam.flds)}
     E = []
     for r in SymbolGraph().relations():
@@ -529,6 +586,8 @@ def run_impl(descr) -> Dict[str, Any]:
                   ident.get(id(r.target.instance), -1)])
     V = []
     for i, o in enumerate(objs):
+        if o is None:
+            continue
         ci = pop[i][0]
         for f, (cj, name, _) in enumerate(fam.flds):
             if cj != ci:
@@ -576,16 +635,17 @@ Import ListNotations. Open Scope nat_scope."""
 
 
 def header(model: bool) -> str:
-    return ((HEADER_MODEL_IMPORTS if model else HEADER_SPEC_IMPORTS) + "\n" + "".join(f.coq_defs() for f in families().values())
+    fams = list(families().values()) + [f.canonical() for f in families().values() if f.has_subclass_keys()]
+    return ((HEADER_MODEL_IMPORTS if model else HEADER_SPEC_IMPORTS) + "\n" + "".join(f.coq_defs() for f in fams)
             + "Definition clsf (tw : list (nat * nat)) (o : nat) : nat := odef o (lookup o tw).\n")
 
 
 def edges_of(descr) -> List[Tuple[int, int, int]]:
-    return ctor_edges(descr["pop"]) + [(s, f, t) for _, s, f, ts in descr["ops"] for t in ts]
+    return ctor_edges(descr["pop"]) + [(s, f, t) for how, s, f, ts in descr["ops"] if how != "drop" for t in ts]
 
 
-def sch_term(descr) -> str:
-    k = descr["fam"]
+def sch_term(descr, canonical: bool = False) -> str:
+    k = descr["fam"] + ("c" if canonical and families()[descr["fam"]].has_subclass_keys() else "")
     cl = "[" + "; ".join(f"({i}, {p[0]})" for i, p in enumerate(descr["pop"])) + "]"
     rt = "[" + "; ".join(f"({i}, {p[1]})" for i, p in enumerate(descr["pop"]) if p[1] is not None) + "]"
     return f"(sch_{k} {cl} {rt})"
@@ -608,7 +668,9 @@ def model_term(descr) -> str:
 
 
 def spec_term(descr) -> str:
-    return f"spec_out {sch_term(descr)} 40 {edges_term(sorted(set(edges_of(descr))))}"
+    """the Spec works on FACTS: keys are replaced by the public field they stand for"""
+    c = families()[descr["fam"]].canon
+    return f"spec_out {sch_term(descr, canonical=True)} 40 {edges_term(sorted(set((s, c[f], t) for s, f, t in edges_of(descr))))}"
 
 
 # =========================================================================== generation
@@ -630,6 +692,13 @@ def gen_population(fam: Family, rng: core.Rng):
         pop += [[1, nodes[i]] for i in range(nb)]
         if rng.chance(0.3):                    # two distinct objects that compare and hash equal
             pop = [[2, None, None, 0], [2, None, None, 0]] + [[p[0], None if p[1] is None else p[1] + 2] for p in pop]
+    elif fam.key == "S":
+        # companies / startups, persons / students, CEOs whose role taker is a person or a student
+        nc, np_ = rng.randint(1, 3), rng.randint(1, 3)
+        pop = [[rng.choice([0, 4]), None] for _ in range(nc)] + [[rng.choice([1, 3]), None] for _ in range(np_)]
+        persons = list(range(nc, nc + np_))
+        rng.shuffle(persons)
+        pop += [[2, persons[i]] for i in range(rng.randint(0, min(2, np_)))]
     elif fam.key == "K":
         no, ne, nc = rng.randint(1, 3), rng.randint(0, 2), rng.randint(1, 2)
         nch = rng.randint(0, nc)
@@ -645,11 +714,12 @@ def gen_population(fam: Family, rng: core.Rng):
     return pop
 
 
-def ctor_safe(fam: Family, f: int) -> bool:
+def ctor_safe(fam: Family, f: int, cls_idx: Optional[int] = None) -> bool:
     """may field f be given to the constructor?  Containers only, and every field of the SAME object that inference writes
     (its super-properties in that class) must be declared before f: __init__ assigns the fields in declaration order and
     inference into a field that does not exist yet raises AttributeError (known finding C15-c)."""
     ci, name, _ = fam.flds[f]
+    ci = ci if cls_idx is None else cls_idx
     if fam.kind[f] == "scalar":
         return False
     order = [x.name for x in dc_fields(fam.classes[ci])]
@@ -661,7 +731,8 @@ def add_ctor_contents(fam: Family, pop, rng: core.Rng):
     for i, p in enumerate(pop):
         if fam.classes[p[0]] is Twin or not rng.chance(0.25):
             continue
-        cands = [f for f, (ci, _, _) in enumerate(fam.flds) if ci == p[0] and ctor_safe(fam, f)]
+        cands = [f for f, (ci, _, _) in enumerate(fam.flds)
+                 if fam.canon[f] == f and issubclass(fam.classes[p[0]], fam.classes[ci]) and ctor_safe(fam, f, p[0])]
         if not cands:
             continue
         f = rng.choice(cands)
@@ -693,7 +764,9 @@ def gen_op(fam: Family, pop, rng: core.Rng, single: bool = False):
     for _ in range(20):
         f = rng.randint(0, len(fam.flds) - 1)
         ci = fam.flds[f][0]
-        srcs = [i for i, p in enumerate(pop) if p[0] == ci]
+        if fam.canon[f] != f:                   # a direct assertion is recorded under the key of the class that declares the descriptor
+            continue
+        srcs = [i for i, p in enumerate(pop) if issubclass(fam.classes[p[0]], fam.classes[ci])]
         tgts = [i for i, p in enumerate(pop) if p[0] in fam.rng[f]]
         if not srcs or not tgts:
             continue
@@ -724,16 +797,35 @@ def gen_history(fam: Family, pop, rng: core.Rng, nops: int, single: bool = False
     return ops
 
 
+def add_drops(fam: Family, pop, ops, rng: core.Rng):
+    """release an object in the middle of the history: allowed when no fact of the closure so far has it as target (nobody holds it),
+    and nothing asserted later mentions it"""
+    if len(ops) < 2:
+        return ops
+    k = rng.randint(1, len(ops) - 1)
+    before = ctor_edges(pop) + [(s, f, t) for _, s, f, ts in ops[:k] for t in ts]
+    C = py_closure(fam, pop, before)
+    later = {x for _, s, f, ts in ops[k:] for x in [s] + list(ts)}
+    roles = {p[1] for p in pop if p[1] is not None}
+    cands = [i for i in range(len(pop)) if i not in later and i not in roles and not any(t == i for _, _, t in C)
+             and any(s == i for s, _, _ in C)]
+    if not cands:
+        return ops
+    return ops[:k] + [["drop", rng.choice(cands), -1, []]] + ops[k:]
+
+
 def gen_cases(tier: str, seed: int) -> List[dict]:
     rng = core.Rng(seed * 1000003 + 15)
     fams = families()
     n_random, n_sets, maxperm = (1500, 9, 5) if tier == "quick" else (12000, 60, 6)
     out = []
-    keys = ["U", "N", "K", "O", "N"]
+    keys = ["U", "N", "K", "O", "N", "S"]
     for i in range(n_random):
         fam = fams[keys[i % len(keys)]]
         pop = gen_population(fam, rng)
         ops = gen_history(fam, pop, rng, rng.randint(1, 9))
+        if ops and fam.key == "O" and rng.chance(0.5):
+            ops = add_drops(fam, pop, ops, rng)
         if ops:
             out.append({"fam": fam.key, "pop": pop, "ops": ops, "group": "random"})
     for i in range(n_sets):
@@ -801,27 +893,40 @@ def fields_agree(descr, impl_V, spec_set) -> bool:
 
 def decide(rep: core.Report, descr, impl, model, spec, model_ok: bool, stats) -> Optional[dict]:
     """returns a violation record or None"""
-    impl_E, impl_V = norm(impl["E"]), norm(impl["V"])
-    spec_set = None if spec == -1 else sorted(set(norm(spec)))
+    fam = families()[descr["fam"]]
+    keyed = fam.has_subclass_keys()
+    dead = {s for how, s, f, ts in descr["ops"] if how == "drop"}
+
+    def live(es):          # relations of collected objects stay in the graph until a sweep and the model has no collection:
+        return [e for e in es if e[0] not in dead and e[2] not in dead and e[0] >= 0 and e[2] >= 0] if dead else list(es)
+
+    def facts(es):         # a key stands for the public field of the class that declares the descriptor
+        return [(s, fam.canon[f] if f >= 0 else f, t) for s, f, t in es]
+
+    impl_E, impl_V = live(norm(impl["E"])), live(norm(impl["V"]))
+    spec_set = None if spec == -1 else sorted(set(live(norm(spec))))
     if spec_set is None:
         rep.oblige("spec:fixpoint-reached", False, f"closure_fuel did not reach a fixpoint on {descr}")
         return None
     problems = []
     if impl["exc"]:
         problems.append(f"exception {impl['exc']}")
-    if sorted(set(impl_E)) != spec_set:
+    if sorted(set(facts(impl_E))) != spec_set:
         problems.append("graph relations differ from the closure of the asserted facts")
     if len(set(impl_E)) != len(impl_E):
         problems.append("a relation is stored twice in the graph")
-    if not fields_agree(descr, impl_V, spec_set):
+    if not fields_agree(descr, sorted(set(facts(impl_V))), spec_set):
         problems.append("field contents differ from the closure of the asserted facts (list and single-valued fields object by object, "
                         "set fields up to ==)")
     if model_ok:
         if model == -1:
             rep.oblige("model:fuel", False, f"model ran out of fuel on {descr}")
         else:
-            mE, mV = norm(model[0]), norm(model[1])
-            if not problems and (mE != impl_E or mV != impl_V):
+            mE, mV = live(norm(model[0])), live(norm(model[1]))
+            # with subclass keys the field store of the model is keyed like the graph while the objects' fields go by name: only the
+            # graph is compared with the model there (key by key); the fields are compared with the Spec
+            same = (mE == impl_E) and (keyed or mV == impl_V)
+            if not problems and not same:
                 stats["model_mismatch"] += 1
                 rep.oblige("correspondence:model", False,
                            f"model differs from implementation (which meets the Spec) on {json.dumps(descr)}: "
@@ -842,19 +947,20 @@ def run(tier: str, seed: int, replay=None) -> int:
         "harness/c15.py: schema extraction from the Python classes (descriptor class hierarchy, inverse, TransitiveProperty, role taker), case builders through the public API, canonicaliser (objects and fields numbered)",
         "rustworkx PyDiGraph (out_edges/in_edges return snapshots), CPython list/set",
     ]
-    rep.trusted.append("source pins pins/onto.json (pin set pins/sets/onto.json): the normalised source of the 57 methods the hand models Onto/Closure.v and Onto/Container.v mirror is compared on every run; an edit reopens the correspondence obligation")
+    rep.trusted.append("source pins pins/onto.json (pin set pins/sets/onto.json): the normalised source of the 61 methods the hand models Onto/Closure.v and Onto/Container.v mirror is compared on every run; an edit reopens the correspondence obligation")
     rep.assume = [
         "single-valued fields receive at most one value in the closure (generator rejects other histories); role takers are fixed at construction",
         "container assignment only onto an empty field (assignment onto a non-empty field is retraction, which the graph does not do)",
         "every descriptor with an inverse finds a field of the inverse descriptor class on the target or its role taker (otherwise ValueError by design)",
-        "instance classes own their descriptors directly (no instances of subclasses of a descriptor-owning class)",
+        "instances of subclasses of a descriptor-owning class (family S): the class diagram keys an inherited field per class, so one fact can be stored under two keys; the model and the theorems run on keys (compared key by key with the graph), the Spec on facts (object, public field, object); there the field store is compared with the Spec only",
+        "objects released in mid-history (family O, sources nobody refers to): their relations stay in the graph until a sweep; graph, fields, model and Spec are compared on the surviving objects",
         "every object of a population stays alive for the whole history (the model has no garbage collection): the guard `if nxt_relation.source.instance is None: continue` of infer_transitive_relations_incoming_to_target (52517d3, C14-b; pinned) is never taken in the modelled histories, where it is the identity",
         "field agreement: list and single-valued fields object by object; set fields up to == (a Python set cannot hold two equal objects: the graph still records the relation to each of them)",
         "constructor arguments: non-empty containers only, and only where every same-object field written by inference is declared earlier (K_ctor_halfbuilt, C15-c, replayed from its witness)",
     ]
     rep.rule = ("random populations whose objects are partly built with NON-EMPTY containers handed to the constructor, in family N partly with two distinct objects that compare and hash equal; random assertion histories (1-9 write operations: append/insert/extend/+=/assignment, add/update/|=, scalar assignment) "
-                "over random populations of the university model and of three harness-defined schemas (diamond of sub-properties + transitive "
-                "inverse pair with cycles + role taker; one transitive descriptor on two domain classes + self-inverse relation; a 4-level sub-property chain whose domain classes and role taker skip levels), plus ALL "
+                "over random populations of the university model and of four harness-defined schemas (diamond of sub-properties + transitive "
+                "inverse pair with cycles + role taker; one transitive descriptor on two domain classes + self-inverse relation; a 4-level sub-property chain whose domain classes and role taker skip levels; the university model with instances of subclasses Student(Person) / Startup(Company) as sources, targets and role takers), partly with an object released and collected in mid-history, plus ALL "
                 "permutations of fact sets of <= 5 (thorough <= 6) facts; non-trivial = the closure is strictly larger than the asserted set; "
                 "distinct = distinct (family, population, history)")
     ok_spec, log = core.coq_make(["Base/Sx.vo", "Onto/ClosureSpec.vo"])
@@ -922,6 +1028,7 @@ def run(tier: str, seed: int, replay=None) -> int:
                 rep.note(f"known finding {open_names[cname].fid}: witness no longer fails")
             continue
         model_same = bool(model_ok and model != -1 and not impl.get("build_failed") and not impl["exc"]
+                          and not any(op[0] == "drop" for op in d["ops"])
                           and norm(model[0]) == norm(impl["E"]) and norm(model[1]) == norm(impl["V"]))
         if cname in open_names and model_same:
             rep.known(open_names[cname])
